@@ -290,9 +290,10 @@ def run_check(mod, tier, replay=None):
             per = max(1, min(per, mod.max_workers(tier)))
         procs = []
         for h in hosts:
-            for s in range(per):
+            nper = mod.workers_for_host(tier, h) if hasattr(mod, "workers_for_host") else per
+            for s in range(nper):
                 out = os.path.join(work, "res-%s-%d.json" % (h, s))
-                cmd = [interp(h), "-m", "vlib.worker", pid, tier, str(s), str(per), h, planfile, out]
+                cmd = [interp(h), "-m", "vlib.worker", pid, tier, str(s), str(nper), h, planfile, out]
                 procs.append((h, s, out, subprocess.Popen(cmd, env=base_env(), cwd=VERIF)))
         results = []
         harness_fail = []
@@ -376,6 +377,7 @@ def _finish(mod, tier, seed, plan, hosts, results, harness_fail, wall):
         "known_findings_matched": {s: matched[s]["n"] for s in matched},
         "unlisted_violation_signatures": sorted(unlisted)[:50],
         "bounds": mod.bounds(tier) if hasattr(mod, "bounds") else {},
+        "worker_wall_s_max_by_host": {h: round(max([r.get("wall_s", 0) for r in results if r["host"] == h] or [0]), 1) for h in hosts},
     }
     if hasattr(mod, "summarize"):
         cov.update(mod.summarize(plan, counts, extras, results))
